@@ -115,6 +115,7 @@ def run(F, chk):
                 else:
                     rc.violation(key, b.where(bi), "slice/index not proven in bounds: " + why)
     buffer_resize_rule(F, chk)
+    readiness_evidence_rule(F, chk)
     # ---------------- R-C11-d (same-crate half; the cross-crate half is the compile-fail witness) ----
     rd = chk.rule("R-C11-d", "T4", "Buffer's cursor fields are written only inside impl Buffer", floor=4)
     for fld in ("memory", "capacity", "position", "end"):
@@ -220,3 +221,42 @@ def residual_name(b, t):
 def run_thorough(F, chk):
     import witness
     witness.apply(chk, "R-C11-d-w", "BufferCursorIsPrivate", "compile_fail witness: Buffer cursor fields are private across crates")
+
+
+def readiness_evidence_rule(F, chk):
+    """R-C11-f: the channel's sockets are registered edge-triggered, so `readiness` may only lose READABLE / WRITABLE on
+    evidence from the kernel: inside Channel::readable / Channel::writable every statement that clears bits of
+    self.readiness (Ready::remove on it, or assigning it) must be dominated by the socket read/write call of that
+    function (its WouldBlock / Ok(0) / error arms).  Clearing readiness because a *buffer* is full leaves bytes in the
+    socket with no further edge to wake the reader: the rest of the stream is never delivered."""
+    r = chk.rule("R-C11-f", "T5", "readiness bits are cleared only on evidence from the socket call", floor=4)
+    CH = "sozu_command_lib::channel::Channel"
+    n = 0
+    for fn, io in (("readable", ("io::Read>::read", "::read")), ("writable", ("io::Write>::write", "::write"))):
+        cands = [p for p in F.paths() if p.startswith(CH + "::<") and p.endswith("::" + fn) and "{closure" not in p]
+        if not r.require(cands, "Channel::%s not found" % fn):
+            continue
+        b = lib.flat(F, F.body(cands[0]))
+        r.fn(b.path)
+        sys_calls = [bi for bi, t in b.calls() if (t.get("fn") or "").endswith(("std::io::Read::read", "std::io::Write::write"))
+                     or callee_of(t).endswith(io[0])]
+        if not r.require(sys_calls, "Channel::%s: socket %s call not found" % (fn, io[1])):
+            continue
+        sites = []
+        for bi, t in b.calls():
+            if callee_of(t).endswith("ready::Ready::remove") and t["args"]:
+                sl = guards.slice_of_operand(b, t["args"][0])
+                if any(f == "readiness" for _, f in sl["fields"]) and not any(f == "interest" for _, f in sl["fields"]):
+                    sites.append((bi, None, "remove"))
+        for bi, si, s2 in b.stmts():
+            lhs = s2.get("lhs")
+            if isinstance(lhs, dict) and any(f == "readiness" and a == CH for a, _, f in proj_fields(lhs)):
+                sites.append((bi, si, "assign"))
+        for i, (bi, si, how) in enumerate(sorted(sites, key=lambda x: (x[0], x[1] or 0))):
+            n += 1
+            key = "%s|readiness %s#%d" % (b.path, how, i)
+            if any(b.dominates(sc, bi) for sc in sys_calls):
+                r.ok(key, b.where(bi, si), "dominated by the socket call")
+            else:
+                r.violation(key, b.where(bi, si), "Channel::%s clears readiness without having called the socket: with edge-triggered registration no further event arrives for the bytes still in the kernel, and the rest of the stream is never delivered" % fn)
+    r.require(n >= 4, "only %d readiness-clearing sites found in Channel::readable/writable" % n)
